@@ -544,6 +544,8 @@ def align_variable_names_with_convention(
                     partial_tree.bases
                     or parsing.is_magic_method(node)
                     or name in accessed_attribute_names
+                    or name in preserve
+                    or f"{partial_tree.name}.{name}" in preserve
                 ):
                     renamings[node] = {name}
                 funcdefs.append(node)
@@ -560,6 +562,8 @@ def align_variable_names_with_convention(
                     partial_tree.bases
                     or (name.startswith("__") and name.endswith("__"))
                     or name in accessed_attribute_names
+                    or name in preserve
+                    or f"{partial_tree.name}.{name}" in preserve
                 ):
                     renamings[node] = {name}
                 substitute = style.rename_variable(
